@@ -14,6 +14,7 @@ THEOREMS = ['builder_roundtrip_partial', 'from_iter_session', 'snapshot_immutabl
 COQ_DIR = os.path.join(C.VERIF, 'c14', 'coq')
 COQ_LOGICAL = '-R %s/coq AwkV -R . AwkBuilder' % C.VERIF
 NEEDS_SAN = True
+DRIVERS = ('builddrv',)
 RULE = ('sessions = command sequences over {null,bool,int,real,str,bytes,beginlist,endlist,begintuple,index,endtuple,'
         'beginrecord(name|unnamed),field,endrecord,snapshot,clear}; 70% are the from_iter encoding of random nested '
         'values drawn from a random schema (ints/floats mixed, None anywhere, records with missing fields and varying '
